@@ -6,6 +6,7 @@ open BinNums
 open Base
 open C14Model
 open C14HevcModel
+open C14AvcModel
 
 let show_res (f : 'a -> string) (r : 'a res) : string =
   match r with
@@ -38,7 +39,8 @@ let model (fn : string) (args : int list) (d : coq_N list) : string =
   | "avc_idr" -> show_res show_bool (avc_is_idr_sample d)
   | "avc_hps" -> show_res show_bool (avc_has_parameter_sets d)
   | "avc_gps" -> show_res show_ps (avc_get_parameter_sets d)
-  | "avc_gpsb" -> show_res show_ps (avc_get_parameter_sets_from_byte_stream d)
+  (* the transcription with totSize and the psData repacking (C14AvcModel.v); avc has no VPS list *)
+  | "avc_gpsb" -> show_res (fun (s, p) -> show_ps (([], s), p)) (avc_GetParameterSetsFromByteStream d)
   | "avc_enot" -> show_res show_list (avc_extract_nalus_of_type (a 0) (L.nth args 1 = 1) d)
   | "avc_gfv" -> show_res hex_of_bytes (avc_get_first_video_nalu d)
   (* the hevc functions are answered by the transcription of the hevc Go text (C14HevcModel.v); the older
